@@ -44,13 +44,13 @@ struct CheckDef {
 };
 
 static std::vector<CheckDef> g_checks = {
-        { "C01", "exploration", { { "hashmgr", 5 }, { "l2mgr", 1 }, { "hashendure", 0, 28 } }, 30000, 3000000, 50, 900, false, false,
+        { "C01", "exploration", { { "hashmgr", 5 }, { "l2mgr", 1 }, { "hashfill", -20 }, { "hashendure", 0, 28 } }, 30000, 3000000, 50, 900, false, false,
           "cases: seeded plans (algorithm x family x client count x segmentation x submit/flush/restart interleaving; 1 in 12 with a giant segment "
           "kept in flight); thorough adds 28 endurance runs (one long-lived manager, 20-36 GiB through the flush path); "
           "distinct_nontrivial: distinct manager states reached, state = hash(algorithm, family, |in flight|, sorted remaining-block buckets "
           "of in-flight jobs, #idle, #complete clients, last op kind) at which at least one job was in flight",
           { "reference hashes trusted after start-up vector self-check", "sampling, not proof" } },
-        { "C06", "exploration", { { "hashmgr", 5 }, { "l2mgr", 1 }, { "hashgiant", -28 } }, 30000, 3000000, 50, 900, false, false,
+        { "C06", "exploration", { { "hashmgr", 5 }, { "l2mgr", 1 }, { "hashgiant", -28 }, { "hashfill", -20 } }, 30000, 3000000, 50, 900, false, false,
           "cases: seeded plans over submit/flush/drain/restart/zero-length-LAST histories on every (algorithm, family), 1 in 12 with a giant "
           "(2^30..2^32-1 byte) segment kept in flight, plus 28 runs (one per pair) that flush a single 2^30-byte ENTIRE segment to the end; "
           "distinct_nontrivial: distinct manager states (as C01) reached with a conservation invariant evaluated",
@@ -123,7 +123,7 @@ static std::vector<CheckDef> g_checks = {
             "a second pass runs the same three modes over the FIPS_MODE archive, half of the runs starting with the self-tests not yet run (they then "
             "execute under frozen statics inside the first gated call)" },
           { { "shared", 1 } }, 6000, 400000 },
-        { "C15", "exploration", { { "hashlong", 1 }, { "hashjump", -140 } }, 168, 616, 150, 3000, false, false,
+        { "C15", "exploration", { { "hashlong", 1 }, { "hashjump", -140 }, { "hashfill", -28 } }, 196, 728, 150, 3000, false, false,
           "cases: long-stream workload on every (algorithm, family) pair in turn (run i uses pair i mod 28): up to 4 long clients stream the same "
           "periodic 2 MiB pattern through a 4 GiB aliased window under seeded segmentations (segments up to 2^32-1 bytes, bursts of small "
           "unaligned segments around each threshold) interleaved with short clients; quick crosses 2^29 and 2^32 on all 28 pairs (one long "
@@ -222,6 +222,8 @@ static Sim *get_sim(const std::string &n)
                 s = make_hashendure_sim();
         else if (n == "hashjump")
                 s = make_hashjump_sim();
+        else if (n == "hashfill")
+                s = make_hashfill_sim();
         else if (n == "l2mgr")
                 s = make_l2mgr_sim();
         else if (n == "stream")
@@ -679,7 +681,10 @@ static void worker_main(int wid, int W, const CheckDef &cd, const std::string &t
                 p.seed = seed_i;
                 uint64_t hidA = mix64(seed_i, 0xA11CE), hidB = mix64(seed_i, 0xB0B);
                 RunResult r;
+                double tr0 = getenv("VERIF_DEBUG_SLOW") ? now_s() : 0;
                 exec_checked(sim, p, hidA, hidB, cd.paired, r);
+                if (tr0 && now_s() - tr0 > 0.2)
+                        fprintf(stderr, "SLOW run %llu sim %s %.2fs %s\n", (unsigned long long) i, sname, now_s() - tr0, sim->render(p).substr(0, 160).c_str());
                 out.runs++;
                 out.steps += r.steps;
                 if (cd.paired)
